@@ -22,13 +22,13 @@ func init() { engines["balance"] = &balanceEngine{} }
 type balanceEngine struct{}
 
 type balCase struct {
-	kind    string // exh | prior | random | chain
-	strat   string
-	m, t    int
-	maxP    int
-	naming  int
-	n       int // number of random inputs / chains
-	subIdx  int
+	kind   string // exh | prior | random | chain
+	strat  string
+	m, t   int
+	maxP   int
+	naming int
+	n      int // number of random inputs / chains
+	subIdx int
 }
 
 func balCases(tier string) []balCase {
